@@ -46,7 +46,7 @@ func (w *c19World) value(setting, v string) string {
 			return b
 		case "empty":
 			return ""
-		case "file-missing", "file-broken", "file-utf16":
+		case "file-missing", "file-broken", "file-utf16", "file-unreadable":
 			return a // the value is fine, the file is not
 		case "bad2":
 			// a second malformed form per security-relevant setting
@@ -335,7 +335,7 @@ func runC19(c c19Case, st *hx.Stats) error {
 	}
 	fileState := ""
 	for _, a := range c.Assigns {
-		if a.Value == "file-missing" || a.Value == "file-broken" || a.Value == "file-utf16" {
+		if a.Value == "file-missing" || a.Value == "file-broken" || a.Value == "file-utf16" || a.Value == "file-unreadable" {
 			fileState = a.Value
 		}
 	}
@@ -346,6 +346,10 @@ func runC19(c c19Case, st *hx.Stats) error {
 			// the configuration file that was named does not exist
 		case "file-broken":
 			os.WriteFile(f, []byte("[server\n"+strings.Join(lines, "\n")+"\n"), 0o644) // unclosed section header
+		case "file-unreadable":
+			// the file is there, but the user the server runs as may not read it (a root-owned 0600 file and an
+			// unprivileged service)
+			os.WriteFile(f, []byte("[server]\n"+strings.Join(lines, "\n")+"\n"), 0o600)
 		case "file-utf16":
 			// what a windows editor saves as "Unicode": UTF-16LE with a byte order mark, CRLF, no final line end -
 			// not a text the INI reader understands; its settings must not vanish silently
@@ -371,7 +375,7 @@ func runC19(c c19Case, st *hx.Stats) error {
 	anyBad, flagVal := false, ""
 	vals := map[string]bool{}
 	for _, a := range c.Assigns {
-		if a.Value == "bad" || a.Value == "bad2" || a.Value == "empty" || a.Value == "file-missing" || a.Value == "file-broken" || a.Value == "file-utf16" {
+		if a.Value == "bad" || a.Value == "bad2" || a.Value == "empty" || a.Value == "file-missing" || a.Value == "file-broken" || a.Value == "file-utf16" || a.Value == "file-unreadable" {
 			anyBad = true
 		}
 		if a.Channel == "flag" {
@@ -387,7 +391,23 @@ func runC19(c c19Case, st *hx.Stats) error {
 		st.NT(fmt.Sprintf("%s|%v", c.Setting, c.Assigns))
 	}
 	st.Sample(c)
-	b, err := hx.StartBin(hx.BinOpts{Args: args, Env: env, Dir: w.cwd, Home: w.home})
+	var uid uint32
+	if fileState == "file-unreadable" {
+		if os.Geteuid() != 0 {
+			st.Label("not root: cannot start the server as another user, case skipped")
+			return nil
+		}
+		// an unprivileged user has to reach the binary and the directories of this case
+		uid = 65534
+		for _, start := range []string{tmp, filepath.Dir(hx.BinPath())} {
+			for p := start; p != "/" && p != "."; p = filepath.Dir(p) {
+				if fi, err := os.Stat(p); err == nil && fi.Mode().Perm()&0o005 != 0o005 {
+					os.Chmod(p, fi.Mode().Perm()|0o055)
+				}
+			}
+		}
+	}
+	b, err := hx.StartBin(hx.BinOpts{Args: args, Env: env, Dir: w.cwd, Home: w.home, Uid: uid})
 	if err != nil {
 		return err
 	}
@@ -518,6 +538,9 @@ func c19Cases(yield func(c19Case) bool) {
 func c19FileCases(yield func(c19Case) bool) {
 	for _, ch := range []string{"config-flag", "config-env"} {
 		if !yield(c19Case{Setting: "client-whitelist", Assigns: []c19Assign{{ch, "file-missing"}}}) {
+			return
+		}
+		if !yield(c19Case{Setting: "client-whitelist", Assigns: []c19Assign{{ch, "file-unreadable"}}}) {
 			return
 		}
 	}
